@@ -1,11 +1,43 @@
 ----------------------------- MODULE C12_LoaderMC -----------------------------
-(* Small instance: a chain  A <- B <- C <- D  (think rat <- real <- realseries <- interval_arith) *)
-(* where loading B lazily imports module mreal, whose body imports mint and loads D, and mint     *)
-(* loads B: the shape of data/real.py and data/integer.py.                                        *)
+(* Small instances of the loader model.                                                            *)
+(* chain: A <- B <- C <- D (think rat <- real <- realseries <- interval_arith) where loading B      *)
+(*        lazily imports module mreal, whose body imports mint and loads D, and mint loads B: the   *)
+(*        shape of data/real.py and data/integer.py.  Operations: loads, faults, module imports.    *)
+(* edit:  P <- Q, Q has three items; loads of Q with limits, items inserted / deleted in Q and P.   *)
+(* files: P <- X <- B, P <- W, and A (not there initially; created with the import P): A takes the   *)
+(*        place of X among the imports of B, X gets / loses the import W, A is removed again.       *)
 EXTENDS C12_Loader
+NoImports == <<>>
+\* ---- chain
 cTheories == {"A","B","C","D"}
 cImports == [tt \in cTheories |-> CASE tt = "A" -> <<>> [] tt = "B" -> <<"A">> [] tt = "C" -> <<"B">> [] tt = "D" -> <<"C">>]
 cModules == {"mreal","mint"}
 cLazy == [tt \in cTheories |-> IF tt = "B" THEN "mreal" ELSE "none"]
 cBody == [mm0 \in cModules |-> IF mm0 = "mreal" THEN << <<"import","mint">>, <<"load","D">> >> ELSE << <<"load","B">> >>]
+cItems0 == [tt \in cTheories |-> <<1, 2>>]
+cLimits == [tt \in cTheories |-> {0}]
+\* mechanisms: {} has the property; {"staledeps"} is logic/basic.py before the import walk re-read changed files; one more deviation each
+Fixed == {{}}
+AsCoded == {{"staledeps"}}
+cVariants == {{}, {"norestore"}, {"tsfirst"}, {"staledeps"}, {"staledeps", "norestore"}, {"staledeps", "tsfirst"}}
+eVariants == {{}, {"limitpos"}, {"staledeps"}, {"staledeps", "limitpos"}}
+fVariants == {{}, {"stalemeta"}, {"keepentry"}, {"staledeps"}, {"staledeps", "stalemeta"}, {"staledeps", "keepentry"}}
+\* ---- edit
+eTheories == {"P","Q"}
+eImports == [tt \in eTheories |-> IF tt = "Q" THEN <<"P">> ELSE <<>>]
+eLazy == [tt \in eTheories |-> "none"]
+eBody == [mm0 \in {} |-> <<>>]
+eItems0 == [tt \in eTheories |-> IF tt = "Q" THEN <<1, 2, 3>> ELSE <<1>>]
+eLimits == [tt \in eTheories |-> IF tt = "Q" THEN {0, 2, 3} ELSE {0}]
+eFileOps == { <<"ins", "Q", 0, NoImports>>, <<"ins", "Q", 2, NoImports>>, <<"del", "Q", 0, NoImports>>, <<"del", "Q", 1, NoImports>>,
+              <<"ins", "P", 0, NoImports>> }
+\* ---- files
+fTheories == {"P","X","W","A","B"}
+fImports == [tt \in fTheories |-> CASE tt = "P" -> <<>> [] tt = "X" -> <<"P">> [] tt = "W" -> <<"P">> [] tt = "A" -> <<"P">> [] tt = "B" -> <<"X">>]
+fLazy == [tt \in fTheories |-> "none"]
+fItems0 == [tt \in fTheories |-> <<1>>]
+fLimits == [tt \in fTheories |-> {0}]
+fPresent == {"P","X","W","B"}
+fFileOps == { <<"create", "A", 0, <<"P">> >>, <<"remove", "A", 0, NoImports>>, <<"reimport", "B", 0, <<"A">> >>, <<"reimport", "B", 0, <<"X">> >>,
+              <<"reimport", "X", 0, <<"P", "W">> >>, <<"reimport", "X", 0, <<"P">> >> }
 =============================================================================
